@@ -137,6 +137,24 @@ Theorem C18_nak_to_ack_refuted :
     e_done a' = [7] /\ e_deliv (sb s) = [].
 Proof. exact nak_to_ack_refuted. Qed.
 
+(** ** A defect of the current code, excluded by the model's terminal [Down]: the line engine
+    keeps answering the line after its own send failed, while the closing generation no longer
+    delivers. A peer message is then ACK'd (its send returns nil) and lost. The theorems above
+    therefore hold for the engine with fixes/C18-stop-engine-after-send-failed.diff applied
+    (known finding C18-ack-into-closing-generation, reproduced on the real code by the check's
+    race probe). *)
+Theorem C18_served_after_failure_refuted :
+  exists s, run (sys0 0 0 [(7, 1)] [(9, 1)]) [LStart B; LLine B Drop; LTimeout B] = Some s /\
+    e_ph (sb s) = Down /\
+    let a1 := start (sa s) in
+    let b1 := closing_react (sb s) (AChar ENQ) in
+    let a2 := react (set_out a1 []) (AChar EOT) in
+    let b2 := closing_react (set_out b1 []) (ABlk (blk 7 0 1)) in
+    let a3 := react (set_out a2 []) (AChar ACK) in
+    e_out a1 = [OCh ENQ] /\ e_out b1 = [OCh EOT] /\ e_out a2 = [OBlk (blk 7 0 1)] /\
+    e_out b2 = [OCh ACK] /\ e_done a3 = [7] /\ e_deliv b2 = [].
+Proof. exact served_after_failure_refuted. Qed.
+
 Theorem C18_bridge_line_chars :
   ch_code ENQ = Some Gen.secs1.enq /\ ch_code EOT = Some Gen.secs1.eot /\
   ch_code ACK = Some Gen.secs1.ack /\ ch_code NAK = Some Gen.secs1.nak.
